@@ -11,6 +11,7 @@ import (
 	"encoding/pem"
 	"fmt"
 	"math/big"
+	"os"
 	"sort"
 	"strconv"
 	"strings"
@@ -1021,5 +1022,38 @@ func TestVerifC06(t *testing.T) {
 		}
 		emit(kind, w, ops)
 	}
+	out.Extra("namespace_deref_sites", c06DerefSites())
 	out.Close("C06.Check", "")
+}
+
+// c06DerefSites lists, for the evidence file, every place of the package (non-test sources of the working tree) that
+// reads an optional .Namespace of a reference or consults the resolver: the inventory of cross-namespace
+// dereferences the model's call sites were written from (backend_refs.go, tlsroute.go, gateway_listener.go,
+// route_common.go; the parentRef namespace in route_common.go is governed by allowedRoutes, not by ReferenceGrants).
+func c06DerefSites() []string {
+	var sites []string
+	entries, err := os.ReadDir(".")
+	if err != nil {
+		return []string{"unreadable: " + err.Error()}
+	}
+	for _, e := range entries {
+		n := e.Name()
+		if !strings.HasSuffix(n, ".go") || strings.HasSuffix(n, "_test.go") {
+			continue
+		}
+		data, err := os.ReadFile(n)
+		if err != nil {
+			continue
+		}
+		for i, line := range strings.Split(string(data), "\n") {
+			if strings.Contains(line, ".Namespace != nil") || strings.Contains(line, "refAllowed(") ||
+				strings.Contains(line, "refAllowedFrom(") {
+				if strings.HasPrefix(strings.TrimSpace(line), "//") || strings.HasPrefix(strings.TrimSpace(line), "func ") {
+					continue
+				}
+				sites = append(sites, fmt.Sprintf("%s:%d: %s", n, i+1, strings.TrimSpace(line)))
+			}
+		}
+	}
+	return sites
 }
